@@ -118,6 +118,22 @@ def _merge(prog: Program, run: Run) -> None:
         run.violation(R, C, "missing-side", "either the inherited or the local definitions are "
                       "not entered into the result", f.loc)
         return
+    # every inherited / local definition is entered: what overrides what is decided by the key
+    # (spec id AND protocol) alone, never by a filter in front of the store
+    for s in inh + loc:
+        vn = {y.id for y in ast.walk(s.value) if isinstance(y, ast.Name)}
+        conds = [t for t, _p in cfg.branch_conditions(cfg.node_of(s)) if any(
+            isinstance(y, ast.Name) and y.id in vn for y in ast.walk(t))]
+        if conds:
+            run.violation(R, C, "store-filtered",
+                          f"`{stmt_key(s)}` only happens under `{ast.unparse(conds[0])}`: "
+                          "definitions are dropped by a test that does not look at the whole "
+                          "key (parameter AND protocol), e.g. a local definition for one "
+                          "protocol discards the inherited ones for all others",
+                          f"{f.module.rel}:{s.lineno}", stmt_key(s))
+        else:
+            run.ok(R, C, f"`{stmt_key(s)}` happens for every instance of the list",
+                   f"{f.module.rel}:{s.lineno}")
     # recursion through the parent's computed view
     il = [l for l in loops if any(z is inh[0] for z in ast.walk(l)) and l is not pl]
     src = ast.unparse(il[0].iter) if il else ""
@@ -170,6 +186,18 @@ def _lookup(prog: Program, run: Run) -> None:
     f = prog.func("HierarchyElement.get_comparam")
     fn = f.node
     C = "HierarchyElement.get_comparam"
+    # the look-up is total: several applicable definitions are ranked, not rejected
+    rs = [x for x in walk_no_nested(fn) if isinstance(x, ast.Raise) or (
+        isinstance(x, ast.Expr) and isinstance(x.value, ast.Call) and call_name(x.value) in (
+            "odxraise", "odxassert"))]
+    if rs:
+        run.violation(R, C, "lookup-raises",
+                      f"`{stmt_key(rs[0])}`: get_comparam reports an error instead of returning "
+                      "the most specific definition (protocol-specific before generic) -- a "
+                      "layer that sees both can no longer be queried for that protocol",
+                      f"{f.module.rel}:{rs[0].lineno}", stmt_key(rs[0]))
+    else:
+        run.ok(R, C, "the look-up never raises: it returns a definition or None", f.loc)
     name_p = f.params()[1]
     prot_p = "protocol"
     # protocol_name := protocol.short_name if Protocol else protocol
